@@ -528,7 +528,14 @@ def run_property(pid, modname, tier, seed, level, rule, assumptions, procs=16, o
         try:
             with open(os.path.join(rdir, fn)) as f:
                 rp = json.load(f)
-            found = replay_case(pid, mod, rp["facet"], rp["case"])
+            found = _with_alarm(float(os.environ.get("VK_REPLAY_TIMEOUT", "120")), lambda: replay_case(pid, mod, rp["facet"], rp["case"]))
+        except _ReplayTimeout:
+            # a saved input on which the code under test no longer returns (only met on mutants so
+            # far): inconclusive, reported like a shard that ran out of time
+            msg = f"TIMEOUT: saved replay {fn} did not finish (inconclusive, not a violation)"
+            print("HARNESS-ERROR:", msg, file=sys.stderr)
+            timeouts.append(msg)
+            continue
         except BaseException as e:  # noqa: BLE001 - a replay written for an older case format
             if isinstance(e, (KeyboardInterrupt, SystemExit)):
                 raise
@@ -616,6 +623,29 @@ def run_property(pid, modname, tier, seed, level, rule, assumptions, procs=16, o
         f"known={sum(sum(m.known_hits.values()) for m in merged.values())} violations={len(seen_buckets)} wall={ev['wall_s']}s",
     )
     return exit_code
+
+
+class _ReplayTimeout(BaseException):
+    pass
+
+
+def _with_alarm(seconds, fn):
+    """Runs fn() in this (main) thread under a SIGALRM limit."""
+    import signal
+
+    def on_alarm(signum, frame):
+        raise _ReplayTimeout()
+
+    try:
+        prev = signal.signal(signal.SIGALRM, on_alarm)
+    except ValueError:  # not the main thread: no limit
+        return fn()
+    signal.setitimer(signal.ITIMER_REAL, seconds)
+    try:
+        return fn()
+    finally:
+        signal.setitimer(signal.ITIMER_REAL, 0)
+        signal.signal(signal.SIGALRM, prev)
 
 
 def replay_case(pid, mod, facet_name, case, expect_bucket=None, known=None):
